@@ -516,3 +516,512 @@ def stuck_exits(loop):
     if False in end:
         bad.append(loop)
     return bad
+
+
+# ------------------------------------------------------------------ path explorer (round 4)
+# A small path-sensitive executor over the St trees above, for must-precede / dominance / def-use obligations in the
+# acquisition entry points and the format scanner.  Conditions are parsed with engine/cexpr and decomposed along
+# && || ! (short-circuit order); an atom that is the truth value of a variable / field forks the path and refines that
+# variable's zero-ness; any other atom forks and is recorded as a fact (normalised text, truth).  Values are tracked
+# only as far as constant propagation and copies go (`x = NULL`, `y = x`, `x = f(...)` -> fresh symbol).  A call that is
+# handed a pointer (`ctx`, `&x`, `buf`) forgets what was known about the memory reachable from it.  Forward `goto`s
+# are followed to their label in the function's top-level statement list.  Nothing is guessed: an unparsable
+# condition is an opaque atom keyed by its text, preprocessor conditionals inside the explored code raise.
+from ..engine import cexpr as _cx
+
+
+class Unmodelled(Exception):
+    pass
+
+
+def _prep(text):
+    """Cython's `$name` substitution markers and `(struct name *)` casts, which engine/cexpr does not tokenise, in a parsable spelling."""
+    t = re.sub(r'\(\s*(?:const\s+)?struct\s+\$?\w+\s*(\*+)\s*\)', lambda m: '(PyObject %s)' % m.group(1), text)
+    t = re.sub(r'\$(\w+)', r'\1', t)
+    # ((T *) x)->f  ->  x->f   (the tokenizer has no `->` after a parenthesis)
+    return re.sub(r'\(\s*\(\s*\w+\s*\*+\s*\)\s*([A-Za-z_]\w*(?:->\w+)*)\s*\)\s*->', r'\1->', t)
+
+
+def _parse(text):
+    return _cx.parse(_prep(text))
+
+
+def show(e):
+    """cexpr AST -> normalised text (stable under whitespace / redundant parentheses / likely())."""
+    k = e[0]
+    if k == 'num':
+        return str(e[1])
+    if k == 'char':
+        return repr(chr(e[1])) if 32 <= e[1] < 127 else str(e[1])
+    if k == 'id':
+        return e[1]
+    if k == 'sizeof':
+        return 'sizeof(%s)' % e[1]
+    if k == 'cast':
+        return show(e[2])
+    if k == 'un':
+        return '%s%s' % (e[1], show(e[2]))
+    if k == 'tern':
+        return '(%s ? %s : %s)' % (show(e[1]), show(e[2]), show(e[3]))
+    if k == 'call':
+        if e[1] in ('likely', 'unlikely') and len(e[2]) == 1:
+            return show(e[2][0])
+        return '%s(%s)' % (e[1], ', '.join(show(a) for a in e[2]))
+    if k == 'bin':
+        if e[1] == '[]':
+            return '%s[%s]' % (show(e[2]), show(e[3]))
+        return '(%s %s %s)' % (show(e[2]), e[1], show(e[3]))
+    return '?'
+
+
+def _is_null_const(e):
+    return (e[0] == 'id' and e[1] == 'NULL') or (e[0] == 'num' and e[1] == 0) or (e[0] == 'cast' and _is_null_const(e[2]))
+
+
+def _strip(e):
+    while True:
+        if e[0] == 'cast':
+            e = e[2]
+        elif e[0] == 'call' and e[1] in ('likely', 'unlikely') and len(e[2]) == 1:
+            e = e[2][0]
+        else:
+            return e
+
+
+LVALUE = re.compile(r'[A-Za-z_]\w*(?:\s*(?:->|\.)\s*\w+)*(?:\s*\[[^\]]*\])*')
+ASSIGN_ST = re.compile(r'^(?P<decl>(?:(?:const|unsigned|signed|struct|static)\s+)*(?:[A-Za-z_]\w*[\s\*]+)+?)?(?P<lhs>\*?\s*[A-Za-z_]\w*(?:\s*(?:->|\.)\s*\w+)*(?:\s*\[[^\]]*\])*)\s*'
+                       r'(?P<op>=|\+=|-=|\*=|/=|%=|\|=|&=)(?!=)\s*(?P<rhs>.+)$', re.S)
+
+
+class PState:
+    __slots__ = ('env', 'zero', 'facts', 'events', 'seq', 'gotos')
+
+    def __init__(self):
+        self.env, self.zero, self.facts, self.events, self.seq, self.gotos = {}, {}, [], [], 0, 0
+
+    def copy(self):
+        n = PState()
+        n.env, n.zero, n.facts, n.events, n.seq, n.gotos = dict(self.env), dict(self.zero), list(self.facts), list(self.events), self.seq, self.gotos
+        return n
+
+    def tick(self):
+        self.seq += 1
+        return self.seq
+
+    # values: ('const', int) | ('sym', n)
+    def value(self, path):
+        path = re.sub(r'\s+', '', path)
+        if path not in self.env:
+            self.env[path] = ('sym', self.tick())
+        return self.env[path]
+
+    def is_zero(self, val):
+        """True / False / None (unknown)"""
+        if val[0] == 'const':
+            return val[1] == 0
+        return self.zero.get(val[1])
+
+    def forget_reachable(self, base):
+        for k in [k for k in self.env if k == base or k.startswith(base + '->') or k.startswith(base + '.') or k.startswith(base + '[') or k.startswith('*' + base)]:
+            del self.env[k]
+
+    def fact(self, text, truth):
+        self.facts.append((text, truth, self.tick()))
+
+    def event(self, kind, text, extra=None):
+        self.events.append((kind, text, extra, self.tick()))
+
+    def holds(self, text):
+        """last recorded truth of a fact text (None when never decided on this path)"""
+        for t, v, _ in reversed(self.facts):
+            if t == text:
+                return v
+        return None
+
+
+class Explorer:
+    MAX_PATHS = 60000
+
+    def __init__(self, top, consts=None):
+        self.top = top
+        self.consts = dict(consts or {})
+        self.consts.setdefault('NULL', 0)
+        self.count = 0
+
+    # ---------------------------------------------------------------- expressions
+    def _calls(self, e, st):
+        for x in _cx.walk(e):
+            if x[0] == 'call' and x[1] not in ('likely', 'unlikely'):
+                st.event('call', x[1], [show(a) for a in x[2]])
+                for a in x[2]:
+                    a = _strip(a)
+                    if a[0] == 'un' and a[1] == '&':
+                        a = _strip(a[2])
+                    if a[0] == 'id':
+                        base = re.split(r'->|\.', a[1])[0]
+                        st.forget_reachable(base)
+
+    def _reads(self, e, st):
+        for x in _cx.walk(e):
+            if x[0] == 'id' and x[1] not in self.consts:
+                st.event('read', re.sub(r'\s+', '', x[1]))
+
+    def const_of(self, e, st):
+        """-> int or None"""
+        e = _strip(e)
+        if e[0] in ('num', 'char'):
+            return e[1]
+        if e[0] == 'id':
+            if e[1] in self.consts:
+                return self.consts[e[1]]
+            v = st.env.get(re.sub(r'\s+', '', e[1]))
+            if v and v[0] == 'const':
+                return v[1]
+            return None
+        if e[0] == 'bin' and e[1] == '[]':
+            v = st.env.get(re.sub(r'\s+', '', show(e)))
+            return v[1] if v and v[0] == 'const' else None
+        if e[0] == 'sizeof':
+            return self.consts.get('sizeof(%s)' % re.sub(r'\s+', '', e[1]))
+        if e[0] == 'tern':
+            c = self.const_of(e[1], st)
+            if c is None:
+                return None
+            return self.const_of(e[2] if c else e[3], st)
+        if e[0] == 'bin' and e[1] in ('&&', '||'):
+            a = self.const_of(e[2], st)
+            if a is not None and bool(a) != (e[1] == '&&'):
+                return int(bool(a))
+            b = self.const_of(e[3], st)
+            if a is None or b is None:
+                return None
+            return int(bool(b))
+        if e[0] == 'un' and e[1] in '-+~!':
+            v = self.const_of(e[2], st)
+            if v is None:
+                return None
+            return {'-': -v, '+': v, '~': ~v, '!': int(not v)}[e[1]]
+        if e[0] == 'bin' and e[1] not in ('[]', '&&', '||'):
+            a, b = self.const_of(e[2], st), self.const_of(e[3], st)
+            if a is None or b is None:
+                return None
+            try:
+                return _cx.evaluate(('bin', e[1], ('num', a), ('num', b)), {})
+            except _cx.EvalError:
+                return None
+        return None
+
+    def branch(self, e, st):
+        """-> [(state, truth)]; forks st as needed (st itself may be reused for one outcome)."""
+        e = _strip(e)
+        k = e[0]
+        if k == 'bin' and e[1] in ('&&', '||'):
+            out = []
+            for s1, t1 in self.branch(e[2], st):
+                if (e[1] == '&&') != t1:
+                    out.append((s1, t1))
+                else:
+                    out.extend(self.branch(e[3], s1))
+            return out
+        if k == 'un' and e[1] == '!':
+            return [(s, not t) for s, t in self.branch(e[2], st)]
+        c = self.const_of(e, st)
+        if c is not None:
+            return [(st, bool(c))]
+        if k == 'bin' and e[1] in ('==', '!='):
+            a, b = _strip(e[2]), _strip(e[3])
+            if _is_null_const(b) and a[0] == 'id':
+                return [(s, t if e[1] == '!=' else not t) for s, t in self._truth_of(a[1], st)]
+            if _is_null_const(a) and b[0] == 'id':
+                return [(s, t if e[1] == '!=' else not t) for s, t in self._truth_of(b[1], st)]
+            # same symbol on both sides / two known constants
+            if a[0] == 'id' and b[0] == 'id':
+                va, vb = st.env.get(re.sub(r'\s+', '', a[1])), st.env.get(re.sub(r'\s+', '', b[1]))
+                if va is not None and va == vb:
+                    return [(st, e[1] == '==')]
+            text = show(('bin', '==', e[2], e[3]))
+            return [(s, t if e[1] == '==' else not t) for s, t in self._atom(text, ('bin', '==', e[2], e[3]), st)]
+        if k == 'id':
+            return self._truth_of(e[1], st)
+        return self._atom(show(e), e, st)
+
+    def _truth_of(self, path, st):
+        val = st.value(path)
+        z = st.is_zero(val)
+        st.event('read', re.sub(r'\s+', '', path))
+        if z is not None:
+            return [(st, not z)]
+        a, b = st, st.copy()
+        a.zero[val[1]] = False
+        b.zero[val[1]] = True
+        a.fact(re.sub(r'\s+', '', path), True)
+        b.fact(re.sub(r'\s+', '', path), False)
+        return [(a, True), (b, False)]
+
+    def _atom(self, text, e, st):
+        self._reads(e, st)
+        self._calls(e, st)
+        known = None
+        # a repeated pure atom keeps its value as long as nothing it reads was forgotten: only for call-free atoms
+        if not any(x[0] == 'call' for x in _cx.walk(e)):
+            known = st.holds(text)
+            if known is not None:
+                ids = [re.sub(r'\s+', '', x[1]) for x in _cx.walk(e) if x[0] == 'id']
+                last = max((q for t, v, q in st.facts if t == text), default=0)
+                if any(ev[0] == 'write' and ev[1] in ids and ev[3] > last for ev in st.events) or \
+                        any(ev[0] == 'call' and ev[3] > last for ev in st.events):
+                    known = None
+        if known is not None:
+            return [(st, known)]
+        a, b = st, st.copy()
+        a.fact(text, True)
+        b.fact(text, False)
+        return [(a, True), (b, False)]
+
+    def cond(self, text, st):
+        try:
+            e = _parse(text)
+        except _cx.ParseError:
+            t = 'opaque:' + norm(text)
+            st.event('opaque', t)
+            a, b = st, st.copy()
+            a.fact(t, True)
+            b.fact(t, False)
+            return [(a, True), (b, False)]
+        return self.branch(e, st)
+
+    # ---------------------------------------------------------------- statements
+    def _assign(self, lhs, op, rhs, st):
+        lhs_n = re.sub(r'\s+', '', lhs)
+        try:
+            e = _parse(re.sub(r'(\+\+|--)', '', rhs))
+        except _cx.ParseError:
+            e = None
+        if e is not None:
+            self._reads(e, st)
+            self._calls(e, st)
+        for m in re.finditer(r'(?:\+\+|--)\s*(%s)|(%s)\s*(?:\+\+|--)' % (LVALUE.pattern, LVALUE.pattern), rhs):
+            tgt = re.sub(r'\s+', '', m.group(1) or m.group(2))
+            st.event('write', tgt, 'incdec')
+            st.env.pop(tgt, None)
+        if op != '=':
+            st.event('read', lhs_n)
+        st.event('write', lhs_n, (op, norm(rhs)))
+        newval = None
+        if op in ('+=', '-=', '*=') and e is not None:
+            c = self.const_of(e, st)
+            cur = st.env.get(lhs_n)
+            if c is not None and cur is not None and cur[0] == 'const':
+                newval = ('const', cur[1] + c if op == '+=' else cur[1] - c if op == '-=' else cur[1] * c)
+        if op == '=' and e is not None:
+            c = self.const_of(e, st)
+            s = _strip(e)
+            if c is not None:
+                newval = ('const', c)
+            elif s[0] == 'id' and not re.search(r'\+\+|--', rhs):
+                newval = st.value(s[1])
+        st.forget_reachable(lhs_n)
+        st.env[lhs_n] = newval if newval is not None else ('sym', st.tick())
+
+    DECL_HEAD = re.compile(r'^(?P<type>(?:(?:const|unsigned|signed|struct|static|volatile|register)\s+)*[A-Za-z_$]\w*(?:\s+(?:const|long|int|char|short|double))*[\s\*]+(?:const\s+)?)'
+                           r'(?P<name>[A-Za-z_]\w*)\s*(?:\[[^\]]*\])?\s*(?:=(?!=)\s*(?P<rhs>.+))?$', re.S)
+
+    @classmethod
+    def _declaration(cls, t):
+        """`T a, *b = x, c[3]` -> [(name, rhs or None)]; None when the statement is not a declaration"""
+        if re.match(r'^(return|goto|break|continue|else|case|sizeof)\b', t):
+            return None
+        parts = [p.strip() for p in _split_top(t, ',')]
+        m = cls.DECL_HEAD.match(parts[0])
+        if not m or m.group('type').split()[0] in ('return', 'goto'):
+            return None
+        out = [(m.group('name'), m.group('rhs'))]
+        for p in parts[1:]:
+            mm = re.match(r'^\**\s*(?P<name>[A-Za-z_]\w*)\s*(?:\[[^\]]*\])?\s*(?:=(?!=)\s*(?P<rhs>.+))?$', p, re.S)
+            if not mm:
+                return None
+            out.append((mm.group('name'), mm.group('rhs')))
+        return out
+
+    def simple(self, s, st):
+        t = s.text.strip()
+        if not t or t.startswith('CYTHON_FALLTHROUGH') or t.startswith('CYTHON_UNUSED_VAR') or t.startswith('CYTHON_MAYBE_UNUSED_VAR'):
+            return [(st, ('fall',))]
+        m = re.match(r'return\b\s*(.*)$', t, re.S)
+        if m:
+            expr = m.group(1).strip()
+            if expr:
+                try:
+                    e = _parse(expr)
+                    self._reads(e, st)
+                    self._calls(e, st)
+                except _cx.ParseError:
+                    pass
+            return [(st, ('return', expr))]
+        m = re.match(r'goto\s+(\w+)$', t)
+        if m:
+            return [(st, ('goto', m.group(1)))]
+        if t == 'break':
+            return [(st, ('break',))]
+        if t == 'continue':
+            return [(st, ('continue',))]
+        m = re.match(r'^(?:\+\+|--)\s*(%s)$|^(%s)\s*(?:\+\+|--)$' % (LVALUE.pattern, LVALUE.pattern), t)
+        if m:
+            tgt = re.sub(r'\s+', '', m.group(1) or m.group(2))
+            st.event('read', tgt)
+            st.event('write', tgt, 'incdec')
+            st.forget_reachable(tgt)
+            st.env[tgt] = ('sym', st.tick())
+            return [(st, ('fall',))]
+        decl = self._declaration(t)
+        if decl is not None:
+            for name, rhs in decl:
+                if rhs is not None:
+                    self._assign(name, '=', rhs, st)
+            return [(st, ('fall',))]
+        m = ASSIGN_ST.match(t)
+        if m and not m.group('decl') and not re.match(r'^[A-Za-z_]\w*\s*\(', t):
+            self._assign(m.group('lhs'), m.group('op'), m.group('rhs'), st)
+            return [(st, ('fall',))]
+        try:
+            e = _parse(t)
+            self._reads(e, st)
+            self._calls(e, st)
+        except _cx.ParseError:
+            st.event('opaque', norm(t))
+        return [(st, ('fall',))]
+
+    def stmt(self, s, st):
+        self.count += 1
+        if self.count > self.MAX_PATHS * 40:
+            raise Unmodelled('path explosion')
+        k = s.kind
+        if k == 'simple':
+            return self.simple(s, st)
+        if k == 'block':
+            return self.stmts(s.body, st)
+        if k in ('label', 'case', 'default'):
+            return [(st, ('fall',))]
+        if k == 'pp':
+            if re.match(r'#\s*(if|ifdef|ifndef|else|elif|endif)\b', s.text):
+                raise Unmodelled('preprocessor conditional inside explored code: %s' % s.text[:40])
+            return [(st, ('fall',))]
+        if k == 'if':
+            out = []
+            for s1, t in self.cond(s.text, st):
+                br = s.body if t else s.orelse
+                if br is None:
+                    out.append((s1, ('fall',)))
+                else:
+                    out.extend(self.stmts(as_list(br), s1))
+            return out
+        if k in ('while', 'for', 'do'):
+            out = []
+            base = st
+            if k == 'for':
+                parts = _split_top(s.text, ';')
+                if len(parts) == 3 and parts[0].strip():
+                    for p in _split_top(parts[0], ','):
+                        self.simple(St('simple', p.strip()), base)
+                ctext = parts[1].strip() if len(parts) == 3 else ''
+            else:
+                ctext = s.text
+            always = ctext.strip() in ('1', '') or (k == 'do')
+            if not always:
+                out.append((base.copy(), ('fall',)))         # zero iterations
+            base.event('loop', norm(ctext))
+            for s1, ex in self.stmts(as_list(s.body), base):
+                if ex[0] in ('fall', 'break', 'continue'):
+                    # whatever the body changed may change again: forget the written places
+                    for ev in s1.events:
+                        if ev[0] == 'write' and ev[3] > 0:
+                            pass
+                    out.append((s1, ('fall',)))
+                else:
+                    out.append((s1, ex))
+            return out
+        if k == 'switch':
+            arms = switch_arms(s)
+            out = []
+            try:
+                e = _parse(s.text)
+                self._reads(e, st)
+            except _cx.ParseError:
+                pass
+            if not any(a.default for a in arms):
+                out.append((st.copy(), ('fall',)))
+            for a in arms:
+                s0 = st.copy()
+                s0.fact('switch(%s)' % norm(s.text), tuple(sorted(str(l) for l in a.labels)) or ('default',))
+                body = [x for link in arms[a.index:] for x in link.body]
+                for s1, ex in self.stmts(body, s0):
+                    out.append((s1, ('fall',) if ex[0] in ('break', 'fall') else ex))
+            return out
+        raise Unmodelled('statement kind %s' % k)
+
+    def stmts(self, lst, st):
+        results, cur = [], [st]
+        for s in lst:
+            nxt = []
+            for state in cur:
+                for s1, ex in self.stmt(s, state):
+                    if ex[0] == 'fall':
+                        nxt.append(s1)
+                    else:
+                        results.append((s1, ex))
+            cur = nxt
+            if len(cur) + len(results) > self.MAX_PATHS:
+                raise Unmodelled('more than %d paths' % self.MAX_PATHS)
+            if not cur:
+                break
+        results.extend((s, ('fall',)) for s in cur)
+        return results
+
+    def function(self, st=None):
+        """All complete paths through the top-level list -> [(state, ('return', expr) | ('end',))]; gotos followed to top-level labels."""
+        done = []
+        work = [(st or PState(), 0)]
+        while work:
+            state, start = work.pop()
+            for s1, ex in self.stmts(self.top[start:], state):
+                if ex[0] == 'goto':
+                    idx = [i for i, x in enumerate(self.top) if x.kind == 'label' and x.text == ex[1]]
+                    if not idx:
+                        raise Unmodelled('goto %s: label not at the top level of the function' % ex[1])
+                    s1.gotos += 1
+                    if s1.gotos > 6:
+                        raise Unmodelled('goto chain too long')
+                    s1.event('goto', ex[1])
+                    work.append((s1, idx[0] + 1))
+                elif ex[0] == 'return':
+                    done.append((s1, ex))
+                elif ex[0] == 'fall':
+                    done.append((s1, ('end',)))
+                else:
+                    raise Unmodelled('%s outside a loop/switch' % ex[0])
+                if len(done) > self.MAX_PATHS:
+                    raise Unmodelled('more than %d paths' % self.MAX_PATHS)
+        return done
+
+
+def _split_top(text, sep):
+    out, depth, cur, i = [], 0, '', 0
+    while i < len(text):
+        ch = text[i]
+        if ch in '"\'':
+            j = _skip_quote(text, i)
+            cur += text[i:j]
+            i = j
+            continue
+        if ch in '([{':
+            depth += 1
+        elif ch in ')]}':
+            depth -= 1
+        if ch == sep and depth == 0:
+            out.append(cur)
+            cur = ''
+        else:
+            cur += ch
+        i += 1
+    out.append(cur)
+    return out
